@@ -435,6 +435,10 @@ def run(case, ctx):
                      step_budget=200000)
     if case.get("force"):
         s.forced = dict((int(p), int(k)) for p, k in case["force"])
+    if case.get("line") is not None:
+        # one preemption at source-line granularity (vsched line_preempt)
+        s.line_trace = True
+        s.line_preempt = [list(x) for x in case["line"]]
     interrupts = bool(case.get("interrupts"))
     if interrupts:
         # the real threading.Lock has no owner: any thread can release it
@@ -479,13 +483,20 @@ def run(case, ctx):
         s.settle()
         alive = [t.name for t in s.alive()]
         points = s.points
+        nlines = dict((t.name, t.nlines) for t in s.threads)
+        line_preempted = s.line_preempted
     finally:
         nfc.clf.device.connect = saved_connect
         s.shutdown()
         vsched.activate(None)
+    if case.get("count_lines"):
+        return nlines
     for func, name in sorted(w.sites):
         ctx.label("site:%s->%s" % (func, name))
-    if w.overlap_window:
+    if case.get("line") is not None:
+        if line_preempted:
+            ctx.nontrivial()
+    elif w.overlap_window:
         if not interrupts:          # (the interrupt legs have their own rule)
             ctx.nontrivial()
         ctx.label("driver-call-while-another-thread-waits")
@@ -659,6 +670,25 @@ def enum_preempt(tier, seed, fixed=None):
                 yield dict(base, force=[[p, pick]])
 
 
+def enum_preempt_line(tier, seed):
+    """one preemption before every (quick: every second) source line a thread
+    executes inside nfcpy, for every thread of the fixed programs"""
+    step = 1 if tier == "thorough" else 2
+    for progs in FIXED + [p for p, cf, fa in FIXED_FAIL[:3]]:
+        base = {"programs": progs, "opened": True, "tag_checks": 2,
+                "choices": [], "seed": 0, "line": []}
+        try:
+            n = run(dict(base, count_lines=True), _Ctx())
+        except Violation:
+            yield base
+            continue
+        for name, total in sorted(n.items()):
+            if not name.startswith("app"):
+                continue
+            for k in range(1, min(total, 900) + 1, step):
+                yield dict(base, line=[[name, k]])
+
+
 def static_sites():
     path = REPO_SRC + "/nfc/clf/__init__.py"
     tree = ast.parse(open(path).read())
@@ -766,6 +796,16 @@ LEGS = [
              "callback x one forced preemption (two alternative threads) at "
              "every scheduling point; real threading.Lock semantics for the "
              "frontend lock." % len(FIXED_KBI)),
+    Leg("preempt-line", run=run, enum=enum_preempt_line, exhaustive=True,
+        shards_quick=16, shards_thorough=16,
+        rule="the fixed 2-3 thread programs x one preemption at source-line "
+             "granularity: before every (quick: every second) line a thread "
+             "executes inside nfcpy (frontend, tag, llcp code alike) it loses "
+             "the CPU and another runnable thread goes on - also between a "
+             "check and the lock acquisition that should have covered it.  "
+             "Same oracle (every driver call under the frontend lock, by its "
+             "owner, never on a closed device).  Non-trivial = the preemption "
+             "took place."),
     Leg("preempt", run=run, enum=enum_preempt, exhaustive=True,
         shards_quick=8, shards_thorough=16,
         rule="fixed 2-3 thread programs x one forced preemption (two "
